@@ -127,6 +127,8 @@ pub struct ParseError {
 impl ParseError {
     /// 工具函数/生成「环境切片」
     fn generate_env_slice(env: ParseEnv, index: ParseIndex) -> ParseEnv {
+        // 头索引可能已越过环境末尾（跳过了不存在的括弧）⇒截取前先限制在环境长度内
+        let index = index.min(env.len());
         // 字符范围下限 | 后续截取包含
         let char_range_left = match index > ERR_CHAR_VIEW_RANGE {
             true => index - ERR_CHAR_VIEW_RANGE,
